@@ -256,12 +256,12 @@ def random_line_case(rnd, quick):
     ])
     pool = [t for t, w in weights for _ in range(w)]
     script = []
-    nsteps = rnd.randint(1, 8 if quick else 30)
+    nsteps = rnd.randint(1, 8 if quick else 16)
     for _ in range(nsteps):
         nreads = 1 if rnd.random() < 0.7 else rnd.randint(2, 4)
         step = []
         for _ in range(nreads):
-            n = rnd.choice([0, 1, 1, 1, 2, 2, 3, 5, 8]) if rnd.random() < 0.9 else rnd.randint(20, 50 if quick else 150)
+            n = rnd.choice([0, 1, 1, 1, 2, 2, 3, 5, 8]) if rnd.random() < 0.9 else rnd.randint(20, 50 if quick else 100)
             seg = []
             while len(seg) < n:
                 if rnd.random() < 0.15:
@@ -388,30 +388,142 @@ def _txt(x):
         return '?'
 
 
-def run_irc_case(case, ctors=None):
-    """case: {'call': 'raw' | constructor name, 'prefix': tokens|None,
-    'command': tokens|None (raw only), 'args': [tokens|None], 'bytes': bool | [bool per argument]}.
-    Runs it on the real code.  Returns (trace, info)."""
-    from circuits.protocols.irc import Message
+class IrcRig:
+    """A real IRC component under a Manager with a stand-in transport (records
+    the `write` events the component fires), and a peer: a real Line component
+    (client mode) that is fed every written chunk and whose `line` events are
+    parsed with parsemsg.  The component is shared by all cases (its default
+    `request` handler keeps no state); the peer is replaced whenever a case
+    leaves an unterminated rest in it."""
+
+    def __init__(self):
+        from circuits import BaseComponent, Manager, handler
+        from circuits.protocols.irc import IRC
+        self.root = Manager()
+        self.irc = IRC().register(self.root)
+        self.writes = []
+        self.errors = []
+        rig = self
+
+        class Transport(BaseComponent):
+            @handler('write', priority=1000)
+            def _on_write(self, *args):
+                rig.writes.append(args[-1] if args else None)
+
+            @handler('exception', priority=1000)
+            def _on_exception(self, *args, **kw):
+                rig.errors.append(args[0].__name__ if args and isinstance(args[0], type) else 'exception')
+
+        Transport().register(self.root)
+        self._settle(self.root)
+        self.peer = None
+        self.new_peer()
+
+    def new_peer(self):
+        from circuits import BaseComponent, Manager, handler
+        from circuits.protocols.line import Line
+        self.peer = Manager()
+        self.peer_line = Line().register(self.peer)
+        self.peer_lines = []
+        rig = self
+
+        class PeerObs(BaseComponent):
+            @handler('line', priority=1000)
+            def _on_line(self, *args):
+                rig.peer_lines.append(args[-1])
+
+        PeerObs().register(self.peer)
+        self._settle(self.peer)
+
+    @staticmethod
+    def _settle(m):
+        for _ in range(10000):
+            if not len(m) and not m._tasks:
+                return
+            m.tick()
+        raise tlc.MachineryError('IRC rig does not settle')
+
+    def send(self, event):
+        """fire a command event at the component; -> (written chunks, errors)"""
+        del self.writes[:]
+        del self.errors[:]
+        self.root.fire(event)
+        self._settle(self.root)
+        return list(self.writes), list(self.errors)
+
+    def deliver(self, data):
+        """the peer receives a written chunk; -> the lines its Line component gives out"""
+        from circuits.net.events import read
+        del self.peer_lines[:]
+        self.peer.fire(read(data))
+        self._settle(self.peer)
+        return list(self.peer_lines)
+
+    def end_case(self):
+        if self.peer_line.buffer:
+            self.new_peer()
+
+
+_RIG = []
+
+
+def _rig():
+    if not _RIG:
+        _RIG.append(IrcRig())
+    return _RIG[0]
+
+
+def _parsed_lines(pieces):
+    """parsemsg on each line -> 'parsed' / 'parse_error' trace lines"""
     from circuits.protocols.irc.utils import parsemsg
+    out = []
+    for piece in pieces:
+        try:
+            prefix, command, pargs = parsemsg(piece)
+            nick, user, host = prefix
+            pargs = list(pargs)
+        except Exception:
+            out.append(_plain('parse_error'))
+            continue
+        ln = _plain('parsed')
+        if user is None and host is None:
+            ptxt = nick
+        else:
+            ptxt = '{}!{}@{}'.format(nick or '', user or '', host or '')
+        ln['hp'] = ptxt is not None
+        ln['p'] = _enc(ptxt) if ptxt is not None else []
+        ln['hc'] = command is not None
+        ln['c'] = _enc(command) if command is not None else []
+        ln['a'] = [_enc(a) for a in pargs]
+        out.append(ln)
+    return out
+
+
+def _irc_block(spec, ctors, rig, lines):
+    """One command: build the message, serialise it directly (bytes(message),
+    read back with splitLines + parsemsg), then fire the command event at the
+    real IRC component and read what it writes at the peer.  Appends trace
+    lines; returns the block's info, or None if the code refused to build /
+    serialise it."""
+    from circuits.protocols.irc import Message
+    from circuits.protocols.irc.events import request
     from circuits.protocols.line import splitLines
-    ctors = ctors or ctor_table()
-    call = case['call']
-    as_bytes = case.get('bytes') or False       # bool, or one bool per argument
+    call = spec['call']
+    as_bytes = spec.get('bytes') or False       # bool, or one bool per argument
     word = call.encode() if call != 'raw' else b'CMD'
     if isinstance(as_bytes, list):
-        args = [_realise(a, bool(b), word) for a, b in zip(case['args'], as_bytes)]
+        args = [_realise(a, bool(b), word) for a, b in zip(spec['args'], as_bytes)]
     else:
-        args = [_realise(a, bool(as_bytes), word) for a in case['args']]
-    info = {'outcome': '', 'error': '', 'fields': None, 'wire': None}
-    lines = []
+        args = [_realise(a, bool(as_bytes), word) for a in spec['args']]
+    blk = {'start': len(lines) + 1, 'error': '', 'fields': None, 'wire': None, 'sent': []}
     try:
         if call == 'raw':
             kw = {}
-            if case.get('prefix') is not None:
-                kw['prefix'] = _realise(case['prefix'], False, word)
-            cmd = _realise(case['command'], False, word)
+            if spec.get('prefix') is not None:
+                kw['prefix'] = _realise(spec['prefix'], False, word)
+            cmd = _realise(spec['command'], False, word)
             m = Message(cmd, *args, **kw)
+            ev = request(m)
         else:
             ev = ctors[call][0](*args)
             m = ev.args[0]
@@ -421,13 +533,11 @@ def run_irc_case(case, ctors=None):
         w = bytes(w)
         fields = (m.prefix, m.command, list(m.args))
     except Exception as e:       # refusing is always allowed
-        info['outcome'] = 'reject'
-        info['error'] = type(e).__name__
-        lines = [_plain('reject'), _plain('end')]
-        return {'cfg': {'call': call}, 'lines': lines}, info
-    info['outcome'] = 'sent'
-    info['fields'] = fields
-    info['wire'] = w
+        blk['error'] = type(e).__name__
+        lines.append(_plain('reject'))
+        return None, blk
+    blk['fields'] = fields
+    blk['wire'] = w
     ln = _plain('msg')
     ln['hp'] = fields[0] is not None
     ln['p'] = _enc(fields[0]) if fields[0] is not None else []
@@ -438,35 +548,62 @@ def run_irc_case(case, ctors=None):
     ln = _plain('wire')
     ln['w'] = tt(w)
     lines.append(ln)
-    pieces, _rest = splitLines(w, b'')
-    for piece in pieces:
-        try:
-            prefix, command, pargs = parsemsg(piece)
-        except Exception:
-            lines.append(_plain('parse_error'))
-            continue
-        ln = _plain('parsed')
-        try:
-            nick, user, host = prefix
-            pargs = list(pargs)
-        except Exception:
-            lines.append(_plain('parse_error'))
-            continue
-        if user is None and host is None:
-            ptxt = nick
+    try:
+        pieces, _rest = splitLines(w, b'')
+        pieces = list(pieces)
+    except Exception:
+        pieces = []
+    lines.extend(_parsed_lines(pieces))
+    # through the component: command event -> IRC.request -> write event
+    writes, errors = rig.send(ev)
+    if not writes:
+        blk['error'] = ','.join(errors) or 'nothing written'
+        lines.append(_plain('reject'))       # the component refused (handler raised): allowed
+    for data in writes:
+        ln = _plain('sent')
+        if isinstance(data, (bytes, bytearray)):
+            data = bytes(data)
+            ln['w'] = tt(data)
+            blk['sent'].append(data)
+            lines.append(ln)
+            lines.extend(_parsed_lines(rig.deliver(data)))
         else:
-            ptxt = '{}!{}@{}'.format(nick or '', user or '', host or '')
-        ln['hp'] = ptxt is not None
-        ln['p'] = _enc(ptxt) if ptxt is not None else []
-        ln['hc'] = command is not None
-        ln['c'] = _enc(command) if command is not None else []
-        ln['a'] = [_enc(a) for a in pargs]
-        lines.append(ln)
-    lines.append(_plain('end'))
-    return {'cfg': {'call': call}, 'lines': lines}, info
+            ln['w'] = [997]                  # not bytes: cannot be a CRLF-terminated line
+            blk['sent'].append(repr(data))
+            lines.append(ln)
+    return m, blk
+
+
+def run_irc_case(case, ctors=None):
+    """case: {'call': 'raw' | constructor name, 'prefix': tokens|None,
+    'command': tokens|None (raw only), 'args': [tokens|None], 'bytes': bool | [bool per argument],
+    'then': [further commands of the same shape, sent in a row through the same component and peer]}.
+    Runs it on the real code.  Returns (trace, info)."""
+    ctors = ctors or ctor_table()
+    rig = _rig()
+    lines = []
+    info = {'outcome': '', 'error': '', 'fields': None, 'wire': None, 'blocks': []}
+    try:
+        m, blk = _irc_block(case, ctors, rig, lines)
+        info['blocks'].append(blk)
+        info['error'] = blk['error']
+        if m is None:
+            info['outcome'] = 'reject'
+        else:
+            info['outcome'] = 'sent'
+            info['fields'] = blk['fields']
+            info['wire'] = blk['wire']
+            for spec in case.get('then') or []:
+                _, b2 = _irc_block(spec, ctors, rig, lines)
+                info['blocks'].append(b2)
+        lines.append(_plain('end'))
+    finally:
+        rig.end_case()
+    return {'cfg': {'call': case['call']}, 'lines': lines}, info
 
 
 def irc_cause(info):
+    # info: anything with a 'fields' entry (a block)
     """Classify why a serialised message fails (first applicable cause in a
     fixed order); computed from the message's own fields."""
     prefix, command, args = info['fields']
@@ -505,14 +642,31 @@ def irc_cause(info):
     return 'unexplained'
 
 
-def irc_witness(case, info):
+def irc_witness(case, info, trace=None, badline=0):
+    """Classify a failing IRC case: the block (command) and the phase (bytes(message)
+    or the component's write) the first failing line belongs to, and for the wire
+    phase the cause read off the message's fields."""
+    blk = None
+    for b in info.get('blocks') or []:
+        if b['start'] <= max(badline, 1):
+            blk = b
+    phase = 'wire'
+    if trace is not None and blk is not None:
+        for ln in trace['lines'][blk['start'] - 1:badline]:
+            if ln['k'] in ('wire', 'sent'):
+                phase = ln['k']
     try:
-        cause = irc_cause(info) if info['fields'] is not None else 'none'
+        if phase == 'sent':
+            cause = 'component_write'          # bytes(message) was fine, what the component wrote is not
+        else:
+            cause = irc_cause(blk) if blk is not None and blk['fields'] is not None else 'none'
     except Exception:        # never let the shape of what the code returns crash the harness
         cause = 'unexplained'
     b = case.get('bytes') or False
+    nblk = (info.get('blocks') or []).index(blk) + 1 if blk is not None else 0
     return {'part': 'irc', 'via': 'raw' if case['call'] == 'raw' else 'constructor', 'cause': cause,
-            'args_as': 'bytes' if b is True else 'mixed' if b else 'str'}
+            'args_as': 'bytes' if b is True else 'mixed' if b else 'str', 'at': phase, 'command_no': nblk,
+            'over_512': bool(blk is not None and blk['wire'] is not None and len(blk['wire']) > 512)}
 
 
 def strs(tokens, maxlen):
@@ -526,8 +680,17 @@ ARG_TOKENS = [CR, LF, A, M1, M2, SP, COLON, NUL]
 HEAD_TOKENS = [CR, LF, A, SP, COLON, NUL]
 
 
+FOLLOW = {'call': 'raw', 'prefix': None, 'command': [A], 'args': [[A]]}      # Message('a', 'a'), see IrcMsg.tla
+
+
 def cases_of_model_case(cs, ctors):
     """a case chosen by IrcMsg.tla -> the concrete calls that realise it"""
+    for case in _cases_of_model_case(cs, ctors):
+        case['then'] = [dict(FOLLOW)]
+        yield case
+
+
+def _cases_of_model_case(cs, ctors):
     if cs['kind'] == 'raw':
         yield {'part': 'irc', 'call': 'raw', 'prefix': cs['p'] if cs['hp'] else None, 'command': cs['c'],
                'args': cs['args'], 'origin': 'tlc-history'}
@@ -595,7 +758,66 @@ def sweep_cases(ctors, quick, rnd):
                     yield {'part': 'irc', 'call': 'raw', 'prefix': p, 'command': c, 'args': list(args), 'origin': 'sweep'}
 
 
+def long_cases(ctors, quick):
+    """texts whose serialised message is around and beyond 512 bytes (the RFC 1459
+    limit): ASCII words and multi-byte text, through constructors and a raw
+    Message with a prefix, followed by one or two further commands in a row."""
+    def ascii_text(n):
+        t = []
+        while len(t) < n:
+            t += [A, A, A, A, SP]
+        t = t[:n]
+        if t and t[-1] == SP:
+            t[-1] = A
+        return t
+
+    def mb_text(nbytes):
+        t = [M1, M2] * (nbytes // 2)
+        if nbytes % 2:
+            t.insert(len(t) // 2 // 2 * 2, SP)
+        return t
+
+    def cut(t, n):
+        t = t[:n]
+        return t[:-1] if t and t[-1] == M1 else t
+
+    nick = {'call': 'NICK', 'args': [[A, A]]} if 'NICK' in ctors else dict(FOLLOW)
+    # PRIVMSG a :<text>\r\n = 13 + len(text) bytes: text lengths 485..520 put the message at 498..533
+    dense = list(range(485, 521)) if quick else list(range(440, 600))
+    sparse = [200, 400, 560, 600, 700, 1024] + ([] if quick else [2048, 5000])
+    for n in dense + sparse:
+        for kind, text in (('ascii', ascii_text(n)), ('utf8', mb_text(n))):
+            if quick and kind == 'utf8' and n in dense and n % 3:
+                continue
+            calls = [c for c in ('PRIVMSG', 'TOPIC') if c in ctors]
+            for j, call in enumerate(calls):
+                if quick and n in dense and (n + j) % 2:
+                    continue
+                yield {'part': 'irc', 'call': call, 'args': [[100 + ord('#'), A], text], 'then': [dict(nick)],
+                       'origin': 'long'}
+            if n % 5 == 0 or not quick:
+                yield {'part': 'irc', 'call': 'raw', 'prefix': tt(b'nick!user@host'), 'command': [KW],
+                       'args': [[A], cut(text, max(0, n - 20))],
+                       'then': [{'call': calls[-1], 'args': [[A], text]} if calls else dict(FOLLOW), dict(nick)],
+                       'origin': 'long'}
+
+
 def random_irc_case(rnd, ctors):
+    case = _random_irc_case(rnd, ctors)
+    if case['args'] and rnd.random() < 0.03:
+        # a long last argument (around the 512-byte limit and beyond)
+        n = rnd.choice([rnd.randint(480, 530), rnd.randint(300, 1200)])
+        case['args'][-1] = [rnd.choice([A, A, A, SP, M1]) for _ in range(n)]
+        case['args'][-1] = [t for x in case['args'][-1] for t in ((M1, M2) if x == M1 else (x,))]
+        if isinstance(case.get('bytes'), list):
+            case['bytes'] = False
+    if rnd.random() < 0.2:
+        case['then'] = [{k: v for k, v in _random_irc_case(rnd, ctors).items() if k not in ('part', 'origin')}
+                        for _ in range(rnd.randint(1, 2))]
+    return case
+
+
+def _random_irc_case(rnd, ctors):
     def s(maxlen, pool):
         n = rnd.choice([0, 1, 1, 2, 3, 5, maxlen])
         out = []
@@ -636,23 +858,37 @@ def random_irc_case(rnd, ctors):
 def mutate_irc_trace(rnd, trace):
     lines = [json.loads(json.dumps(ln)) for ln in trace['lines']]
     ks = [ln['k'] for ln in lines]
-    if ks != ['msg', 'wire', 'parsed', 'end']:
+    if ks[:5] != ['msg', 'wire', 'parsed', 'sent', 'parsed']:
         return None
-    how = rnd.choice(['inject', 'noterm', 'args', 'second', 'command'])
+    how = rnd.choice(['inject', 'noterm', 'args', 'second', 'command', 'cut', 'twice', 'unread', 'peer'])
     if how == 'inject':
-        w = lines[1]['w']
+        i = rnd.choice([1, 3])
+        w = lines[i]['w']
         pos = rnd.randint(0, len(w) - 2)
-        lines[1]['w'] = w[:pos] + [rnd.choice([CR, LF])] + w[pos:]
-        what = 'CR/LF inserted into the wire form'
+        lines[i]['w'] = w[:pos] + [rnd.choice([CR, LF])] + w[pos:]
+        what = 'CR/LF inserted into the %s form' % lines[i]['k']
     elif how == 'noterm':
         lines[1]['w'] = lines[1]['w'][:-1]
         what = 'LF removed from the terminator'
+    elif how == 'cut':
+        lines[3]['w'] = lines[3]['w'][:-rnd.choice([1, 2])]
+        what = 'written chunk cut before the end of the terminator'
     elif how == 'args':
         lines[2]['a'] = lines[2]['a'] + [[A]]
         what = 'extra parsed argument'
+    elif how == 'peer':
+        lines[4]['a'] = lines[4]['a'] + [[A]]
+        what = 'extra argument parsed by the peer'
     elif how == 'command':
         lines[2]['c'] = lines[2]['c'] + [A]
         what = 'parsed command altered'
+    elif how == 'twice':
+        lines.insert(5, dict(lines[3]))
+        lines.insert(6, dict(lines[4]))
+        what = 'the component writes twice for one command'
+    elif how == 'unread':
+        del lines[4]
+        what = 'the peer reads nothing for a written command'
     else:
         lines.insert(3, dict(lines[2]))
         what = 'second parsed line'
@@ -676,11 +912,16 @@ def run_replay(path):
     else:
         verdicts, _ = tlc.validate_traces(SPEC, 'IrcMsgTrace', 'IrcMsgTrace.cfg', [trace], shards=1)
         print('call: %s  outcome: %s %s' % (case['call'], info['outcome'], info['error']))
-        if info['wire'] is not None:
-            print('message fields: prefix=%r command=%r args=%r' % info['fields'])
-            print('wire: %r' % info['wire'])
+        for n, b in enumerate(info['blocks'], 1):
+            if b['fields'] is not None:
+                print('command %d: fields prefix=%r command=%r args=%s' % ((n,) + tuple(b['fields'][:2]) + (repr(b['fields'][2])[:200],)))
+                print('   bytes(message) (%d bytes): %s' % (len(b['wire']), repr(b['wire'])[:120] + ' ... ' + repr(b['wire'][-24:])))
+                for d in b['sent']:
+                    print('   written by the IRC component (%d bytes): ... %s' % (len(d), repr(d[-24:])))
+            else:
+                print('command %d: refused (%s)' % (n, b['error']))
     for i, ln in enumerate(trace['lines'], 1):
-        print('%3d %s' % (i, ln))
+        print('%3d %s' % (i, str(ln)[:300]))
     clause, line = verdicts[0]
     if clause:
         print('VIOLATION property=C18 replay=%s clause=%s line=%d' % (path, clause, line))
@@ -763,7 +1004,8 @@ def run(tier, replay=None):
     teeth = {}
     lteeth = [('hist_server', 'code', {'shared': 'C18.cross_socket', 'persegment': 'C18.lines'})] if quick else \
         [('hist_client', 'code', {'persegment': 'C18.lines'}), ('hist_server', 'code', {'shared': 'C18.cross_socket'})]
-    for job, good, defective in lteeth + [('hist_irc', 'strict', {'pinned': 'C18.extra_line', 'fixed': 'C18.roundtrip'})]:
+    for job, good, defective in lteeth + [('hist_irc', 'strict', {'pinned': 'C18.extra_line', 'fixed': 'C18.roundtrip',
+                                                                    'cut512': 'C18.no_terminator'})]:
         sts = results[job][1]
         if any(st['variant'] == good and st['bad'] for st in sts):
             raise tlc.MachineryError('%s: the monitor flags the "%s" variant of the model' % (job, good))
@@ -774,7 +1016,7 @@ def run(tier, replay=None):
                                          % (job, clause, var, hits))
             teeth[var] = hits
     # every action of IrcMsg.tla is alive in every variant: finished cases with arguments, sent and refused
-    for var in ('pinned', 'fixed', 'strict'):
+    for var in ('pinned', 'fixed', 'strict', 'cut512'):
         done = [st for st in results['hist_irc'][1] if st['variant'] == var and st['stage'] == 'done']
         sent = sum(1 for st in done if any(ln['k'] == 'wire' for ln in st['out']))
         if not done or sent == 0 or sent == len(done) or not any(len(st['cs']['args']) >= 2 for st in done):
@@ -802,7 +1044,7 @@ def run(tier, replay=None):
     for mode in ('client', 'server'):
         for c in all_cuts_cases(nasty, mode):
             line_cases.append((c, None))
-    for _ in range(300 if quick else 3000):
+    for _ in range(300 if quick else 2000):
         line_cases.append((random_line_case(rnd, quick), None))
     lap('line cases built: %d' % len(line_cases))
 
@@ -826,7 +1068,8 @@ def run(tier, replay=None):
     seen = set()
 
     def add_irc(case):
-        key = json.dumps([case['call'], case.get('prefix'), case.get('command'), case['args'], case.get('bytes') or False])
+        key = json.dumps([case['call'], case.get('prefix'), case.get('command'), case['args'], case.get('bytes') or False,
+                          case.get('then') or []])
         if key in seen:
             return None
         seen.add(key)
@@ -866,6 +1109,8 @@ def run(tier, replay=None):
         add_irc(case)
         if any(case['args']) and n % 3 == 0:
             add_irc(dict(case, bytes=True))
+    for case in long_cases(ctors, quick):
+        add_irc(case)
     for _ in range(1500 if quick else 30000):
         add_irc(random_irc_case(rnd, ctors))
     lap('irc cases run: %d' % len(irc_runs))
@@ -893,7 +1138,7 @@ def run(tier, replay=None):
     im = with_mutants(it, mutate_irc_trace, nm)
     with ThreadPoolExecutor(max_workers=2) as ex:
         fl = ex.submit(tlc.validate_traces, SPEC, 'LinesTrace', 'LinesTrace.cfg', lt + [m[1] for m in lm],
-                       shards=3 if quick else 8, jvm_opts=JVM, timeout=tmo)
+                       shards=3 if quick else 10, jvm_opts=JVM, timeout=tmo)
         fi = ex.submit(tlc.validate_traces, SPEC, 'IrcMsgTrace', 'IrcMsgTrace.cfg', it + [m[1] for m in im],
                        shards=2 if quick else 8, jvm_opts=JVM, timeout=tmo)
         lv, lstats = fl.result()
@@ -918,19 +1163,26 @@ def run(tier, replay=None):
                        if case['origin'] == 'random' else None)
         if clause:
             ctx.violation(clause, line_witness(case, trace, line), {'case': case, 'trace': trace, 'line': line})
-    n_sent = n_rej = 0
+    n_sent = n_rej = n_written = n_over512 = n_multi = 0
     for (case, trace, info), (clause, line) in zip(irc_runs, iv):
         sent = info['outcome'] == 'sent'
         n_sent += sent
         n_rej += not sent
+        n_written += sum(len(b['sent']) for b in info['blocks'])
+        n_over512 += sum(1 for b in info['blocks'] if b['sent'] and b['wire'] is not None and len(b['wire']) > 512)
+        n_multi += sum(1 for b in info['blocks'] if b['sent']) > 1
         ctx.count_case({k: v for k, v in case.items() if k != 'origin'}, sent,
                        sample={'case': case, 'wire': repr(info['wire']), 'verdict': clause or 'accepted'}
                        if (case['origin'] == 'sweep' and sent and len(case['args']) > 1) else None)
         if clause:
-            ctx.violation(clause, irc_witness(case, info),
-                          {'case': case, 'fields': repr(info['fields']), 'wire': repr(info['wire']), 'trace': trace, 'line': line})
+            ctx.violation(clause, irc_witness(case, info, trace, line),
+                          {'case': case, 'fields': repr(info['fields'])[:400], 'wire': repr(info['wire'])[:400],
+                           'written': [repr(d)[-60:] for b in info['blocks'] for d in b['sent']], 'trace': trace, 'line': line})
     if n_sent == 0 or n_rej == 0:
         raise tlc.MachineryError('IRC cases: %d serialised, %d refused - the enumeration lost one side' % (n_sent, n_rej))
+    if n_written == 0 or n_over512 == 0 or n_multi == 0:
+        raise tlc.MachineryError('IRC component path not exercised: %d writes for %d serialised cases, %d over 512 bytes, '
+                                 '%d cases with several commands in a row' % (n_written, n_sent, n_over512, n_multi))
     lap('verdicts processed')
 
     return ctx.finish(coverage={
@@ -939,6 +1191,8 @@ def run(tier, replay=None):
         'traces_validated_against_impl': len(line_traces) + len(irc_runs),
         'line_traces': len(line_traces), 'irc_cases': len(irc_runs),
         'irc_serialised': n_sent, 'irc_refused': n_rej,
+        'irc_component_writes': n_written, 'irc_writes_of_messages_over_512_bytes': n_over512,
+        'irc_cases_with_commands_in_a_row': n_multi,
         'constructors': sorted(ctors),
         'model_histories_replayed': n_hist + n_models,
         'model_line_exact_match': n_match + n_imatch, 'model_line_compared': n_cmp + n_icmp,
